@@ -8,6 +8,13 @@ Implementation driven (real code from $VERIF_REPO/src):
   ann.annread after save_as.
 Three paths per case: 'mem' (freshly built object), 'copy' (from_dataset(copy=True):
 decode of the freshly written attributes, no file I/O), 'file' (save_as + annread).
+On the 'copy' path every get_coordinates(k) is made on a group object on which nothing
+has been decoded yet (cold cache); on the 'file' path after get_graphic_data().
+Kind 'access_order': one group object reached through one of eight entry points, then a
+random sequence of get_coordinates / get_graphic_data calls on that ONE object.
+Kind 'graphic_layout' (and the 'layout' field of meas cases): the caller's arrays in
+another memory layout (Fortran order, transposed per-axis vectors, strided / negative
+stride views, slices of one shared buffer, byte-swapped dtype, read-only) - same values.
 Model: coq/theories/C18_Model.v; theorems: C18_Props.v.
 
 Floats are carried as their bit patterns ("words"); the case files store words
@@ -33,14 +40,19 @@ ORACLE_PREMISES = [
     'keep bit patterns; np.unique on the z column = IEEE equality classes; np.split = Python slicing',
     'CommonZCoordinateValue (FD, Python float) holds a binary32 z exactly (binary32 -> binary64 -> binary32 is the identity)',
     'int32 index lists do not overflow (total number of stored coordinate values < 2^31)',
+    'numpy delivers the logical (row-major, native byte order) element sequence of the caller\'s arrays whatever their memory '
+    'layout (concatenate, flatten, astype, boolean indexing, np.array(.., float32), tobytes); memory layout is outside the model: '
+    'graphic_layout cases are model-compared on their values and judged against a C-ordered native reference',
     'coded concepts / UIDs / labels are compared as opaque identifiers (CodedConcept equality is property C17)',
 ]
 MODELLED = ('ann/content.py Measurements.__init__/get_values, AnnotationGroup.__init__ (graphic data validation, '
             'common-z compaction, flattening, LongPrimitivePointIndexList, measurement count check), get_graphic_data, '
-            'get_coordinates, _get_coordinate_index, get_measurements; ann/sop.py group numbering, get_annotation_group, '
+            'get_coordinates, the _graphic_data decode cache keyed by coordinate type (empty after from_dataset, filled by the '
+            'constructor / the first successful decode) over arbitrary call histories, _get_coordinate_index, get_measurements; '
+            'ann/sop.py group numbering, get_annotation_group, '
             'get_annotation_groups.  Not modelled (exercised only): SOPClass header construction, pydicom I/O.')
 STRATA = ['graphic', 'graphic_bigint', 'graphic_err', 'decode_raw', 'meas', 'meas_raw', 'group_meas', 'group_meas_err',
-          'lookup', 'lookup_err', 'zero_mixed']
+          'lookup', 'lookup_err', 'zero_mixed', 'graphic_layout', 'access_order']
 RULE = ('graphic: 1-4 groups per object, all five graphic types, point counts at and around the limits, 2-D / 3-D with '
         'constant / varying / almost-constant z, dtypes float32 float64 int8..int64 uint8..uint32 and mixed, values from '
         'boundary pools (signed zeros, denormals, max finite, 2^24, dyadic); graphic_err: every guard violated once (count '
@@ -49,6 +61,9 @@ RULE = ('graphic: 1-4 groups per object, all five graphic types, point counts at
         'coordinate type); meas: every NaN mask up to length 4 + random, infinities, payload NaNs, several requested '
         'counts; meas_raw: malformed stored indices; group_meas(_err): named vectors, name filters, wrong lengths dense and '
         'sparse; lookup: <= 4 groups with colliding labels/codes/uids, by number/uid/none/filter subsets; '
+        'graphic_layout: every memory layout of LAYOUTS x every graphic type (dims / z modes / dtypes cycled) + random; '
+        'access_order: every entry point x {last, first, whole group, beyond} as FIRST call on the object, polyline/polygon '
+        'biased, then 1-5 further calls, 15 % with a call under the other coordinate type; '
         'non-trivial = more than one annotation or a rejected input; distinct by case hash')
 NOT_EXECUTED = ['float16 / float128 coordinate arrays (outside the property quantifier)',
                 '64-bit integer coordinates with |v| > 2^53 (no float storage holds them; the code rounds silently)']
@@ -220,6 +235,48 @@ def gen_graphic(rng, tier):
     return {'kind': 'graphic', 'd': d, 'groups': groups, 'implicit': rng.random() < 0.3}
 
 
+# memory layouts of the caller's coordinate arrays (same values, same dtype kind)
+LAYOUTS = ['c', 'f', 'columns', 'fslices', 'mixed', 'strided', 'negrow', 'negcol', 'cslices', 'be', 'readonly']
+VLAYOUTS = ['c', 'strided', 'neg', 'be', 'readonly']
+
+
+def gen_graphic_layout(rng, tier, gt=None, d=None, zm=None, dt=None, layout=None, nann=None):
+    d = d or rng.choice([2, 3])
+    groups = []
+    for i in range(rng.choice([1, 1, 2])):
+        g = gen_group(rng, d, gt=gt if i == 0 else None, dt=dt if i == 0 else None, zmode=zm if i == 0 else None,
+                      nann=(nann if i == 0 else None) or rng.choice([1, 2, 3, rng.randint(1, 5)]))
+        g['layout'] = (layout if i == 0 else None) or rng.choice(LAYOUTS[1:])
+        groups.append(g)
+    return {'kind': 'graphic_layout', 'd': d, 'groups': groups, 'implicit': rng.random() < 0.2}
+
+
+ENTRIES = ['mem', 'sop_copy', 'sop_nocopy', 'file_number', 'file_uid', 'file_filter', 'group_copy', 'group_nocopy']
+
+
+def gen_access_order(rng, gt=None, first=None, entry=None):
+    """one group object, a sequence of accessor calls on it; ops = ['all', other] | ['one', k, other]
+    (other = 1: the call asks for the coordinate type the object does NOT have)"""
+    d = rng.choice([2, 3])
+    g = gen_group(rng, d, gt=gt or rng.choice(['POLYLINE', 'POLYGON', 'POLYLINE', 'POLYGON', 'POINT', 'ELLIPSE', 'RECTANGLE']),
+                  dt=rng.choice(['f4', 'f8', 'f4', 'f8', 'i2', 'i4']), nann=rng.choice([1, 2, 3, 3, rng.randint(2, 6)]))
+    n = len(g['gd'])
+
+    def op(which):
+        if which == 'all':
+            return ['all', 0]
+        return ['one', {'last': n, 'first': 1, 'mid': rng.randint(1, n), 'beyond': n + 1, 'zero': 0, 'neg': -1}[which], 0]
+    ops = [op(first or rng.choice(['last', 'last', 'last', 'first', 'mid', 'all', 'beyond', 'zero']))]
+    for _ in range(rng.randint(1, 5)):
+        ops.append(op(rng.choice(['last', 'last', 'first', 'mid', 'mid', 'all', 'all', 'beyond', 'zero', 'neg'])))
+    if rng.random() < 0.15:
+        ops[rng.randrange(len(ops))][-1] = 1
+    if rng.random() < 0.2:
+        g['layout'] = rng.choice(LAYOUTS[1:])
+    return {'kind': 'access_order', 'd': d, 'group': g, 'entry': entry or rng.choice(ENTRIES), 'ops': ops,
+            'implicit': rng.random() < 0.2}
+
+
 def gen_graphic_bigint(rng):
     """integer coordinates beyond 2^24: stored in double precision unless every value is binary32-representable"""
     d = rng.choice([2, 3])
@@ -340,7 +397,8 @@ def gen_meas(rng, vs=None):
         vs = [rand_meas_word(rng) for _ in range(n)]
     n = len(vs)
     ns = sorted({n, max(0, n - 1), n + 1, rng.choice([0, 1, n + 2, -1])})
-    return {'kind': 'meas', 'vs': vs, 'dt': rng.choice(['f4', 'f8']), 'ns': ns}
+    return {'kind': 'meas', 'vs': vs, 'dt': rng.choice(['f4', 'f8']), 'ns': ns,
+            'layout': rng.choice(VLAYOUTS) if rng.random() < 0.4 else 'c'}
 
 
 def gen_meas_raw(rng):
@@ -374,7 +432,7 @@ def gen_group_meas(rng, bad=False):
     ms = []
     for _ in range(k):
         ms.append({'name': rng.randrange(3), 'vs': [rand_meas_word(rng) for _ in range(n)],
-                   'dt': rng.choice(['f4', 'f8'])})
+                   'dt': rng.choice(['f4', 'f8']), 'layout': rng.choice(VLAYOUTS) if rng.random() < 0.3 else 'c'})
     mode = 'ok'
     if bad:
         m = ms[rng.randrange(k)]
@@ -458,6 +516,28 @@ def gen_cases(rng, tier):
         cases.append(gen_zero_mixed(rng))
     for _ in range(30 * n):
         cases.append(gen_graphic_bigint(rng))
+    # every memory layout x every graphic type; dimension / z mode / dtype cycled
+    cyc = [(2, 'vary', 'f4'), (3, 'const', 'f8'), (3, 'vary', 'i4'), (2, 'vary', 'f8'), (3, 'const', 'f4'), (3, 'vary', 'f8'),
+           (2, 'vary', 'i2'), (3, 'const', 'i4')]
+    i = 0
+    for lay in LAYOUTS[1:]:
+        for gt in GT:
+            d, zm, dt = cyc[i % len(cyc)]
+            i += 1
+            cases.append(gen_graphic_layout(rng, tier, gt=gt, d=d, zm=zm, dt=dt, layout=lay))
+        # a group of ONE array in that layout (no neighbour to be concatenated with)
+        d, zm, dt = cyc[(i + 3) % len(cyc)]
+        cases.append(gen_graphic_layout(rng, tier, gt=GT[1 + i % 4], d=d, zm=zm, dt=dt, layout=lay, nann=1))
+    for _ in range(16 * n):
+        cases.append(gen_graphic_layout(rng, tier))
+    # every entry point x first call on the object
+    for entry in ENTRIES:
+        for j, first in enumerate(['last', 'first', 'all', 'beyond']):
+            cases.append(gen_access_order(rng, gt=['POLYGON', 'POLYLINE'][(j + len(entry)) % 2], first=first, entry=entry))
+    for gt in ('POINT', 'ELLIPSE', 'RECTANGLE'):
+        cases.append(gen_access_order(rng, gt=gt, first='last'))
+    for _ in range(30 * n):
+        cases.append(gen_access_order(rng))
     for _ in range(50 * n):
         cases.append(gen_decode_raw(rng))
     # every NaN mask up to length 4
@@ -496,9 +576,56 @@ def _arr(a, dt, d):
     return x
 
 
-def _arrays(g, d):
+def _relayout(xs, how):
+    """the same values in another memory layout (list of 2-D arrays)"""
+    np = _np()
+    if how in (None, 'c') or not xs:
+        return xs
+
+    def one(i, x):
+        if how == 'f' or (how == 'mixed' and i % 2 == 0):
+            return np.asfortranarray(x)
+        if how == 'mixed':
+            return x
+        if how == 'columns':
+            # assembled from per-axis vectors: np.array([x, y]).T / np.stack([x, y, z]).T
+            return np.array([x[:, j] for j in range(x.shape[1])]).T if x.shape[1] else x
+        if how == 'strided':
+            big = np.zeros((x.shape[0] * 2 + 1, x.shape[1] + 2), x.dtype)
+            big[1::2, 1:-1] = x
+            return big[1::2, 1:-1]
+        if how == 'negrow':
+            return np.ascontiguousarray(x[::-1])[::-1]
+        if how == 'negcol':
+            return np.ascontiguousarray(x[:, ::-1])[:, ::-1]
+        if how == 'be':
+            return x.astype(x.dtype.newbyteorder('>'))
+        if how == 'readonly':
+            y = x.copy()
+            y.setflags(write=False)
+            return y
+        raise ValueError(how)
+    if how in ('fslices', 'cslices'):
+        # row slices of ONE shared buffer (column-major: strided, neither C- nor F-contiguous)
+        if len({(x.dtype, x.shape[1:]) for x in xs}) != 1:
+            return [np.asfortranarray(x) for x in xs]
+        big = np.concatenate(xs, axis=0)
+        big = np.asfortranarray(big) if how == 'fslices' else np.ascontiguousarray(big)
+        out, at = [], 0
+        for x in xs:
+            out.append(big[at:at + x.shape[0]])
+            at += x.shape[0]
+        return out
+    return [one(i, x) for i, x in enumerate(xs)]
+
+
+def _arrays(g, d, layout=True):
+    """the caller's arrays; layout=False: plain C-ordered native reference copies"""
     dts = g.get('dts') or [g['dt']] * len(g['gd'])
-    return [_arr(a, dt, d) for a, dt in zip(g['gd'], dts)]
+    xs = [_arr(a, dt, d) for a, dt in zip(g['gd'], dts)]
+    if layout and all(x.ndim == 2 for x in xs):
+        xs = _relayout(xs, g.get('layout'))
+    return xs
 
 
 def _words(x):
@@ -507,6 +634,9 @@ def _words(x):
     x = np.asarray(x)
     if x.dtype.kind in 'iu':
         x = x.astype(np.float32)
+    if not x.dtype.isnative:
+        x = x.astype(x.dtype.newbyteorder('='))
+    x = np.ascontiguousarray(x)
     if x.dtype == np.float32:
         return x.view(np.uint32).tolist()
     if x.dtype == np.float64:
@@ -605,9 +735,20 @@ def _cis(n):
     return [1, n, n + 1]
 
 
-def _observe_group(g, ct, n, widen=False):
+def _cold_copy(g):
+    """a new object for the same stored group on which nothing has been decoded yet"""
+    from highdicom.ann import AnnotationGroup
+    return AnnotationGroup.from_dataset(g, copy=True)
+
+
+def _observe_group(g, ct, n, widen=False, cold=False):
     np = _np()
     enc = _enc(g)
+    if cold:
+        # per-annotation access FIRST, each number on an object with an empty decode cache
+        coords = [catch(lambda k=k: _words(_cold_copy(g).get_coordinates(k, ct))) for k in _ks(n)]
+        gd = catch(lambda: [_words(x) for x in g.get_graphic_data(ct)])
+        return [enc, gd, coords, None]
     # widen=True (fresh object only): the caller's own arrays come back, possibly
     # integer or of mixed precision; render them in the precision the object stores
     # (an exact widening) so that all three paths are comparable word for word
@@ -635,16 +776,68 @@ def _run_graphic(c):
         per_group = []
         for i, g in enumerate(c['groups']):
             grp = obj.get_annotation_group(number=i + 1)
-            o = _observe_group(grp, ct, len(g['gd']), widen=(name == 'mem'))
-            # fresh object: decoded data + per-annotation access; copy: decoded data;
-            # file: stored attributes, decoded data, per-annotation access, coordinate index
-            per_group.append({'mem': [o[1], o[2]], 'copy': [o[1]], 'file': o}[name])
+            o = _observe_group(grp, ct, len(g['gd']), widen=(name == 'mem'), cold=(name == 'copy'))
+            # fresh object: decoded data + per-annotation access; copy: decoded data + per-annotation
+            # access on a cold object (before anything else was decoded); file: stored attributes,
+            # decoded data, per-annotation access after get_graphic_data, coordinate index
+            per_group.append({'mem': [o[1], o[2]], 'copy': [o[1], o[2]], 'file': o}[name])
             if name == 'mem':
                 # the fresh object hands back the caller's own arrays (dtype included)
                 got = [str(x.dtype) for x in grp.get_graphic_data(ct)]
                 dtypes_kept = dtypes_kept and got == [str(a.dtype) for a in _arrays(g, d)]
         out.append(per_group)
     out.append(bool(dtypes_kept))
+    return out
+
+
+def _enter(ann, entry, gt):
+    """the group object of a one-group instance, reached through the given API entry point"""
+    import pydicom
+    from highdicom.ann import MicroscopyBulkSimpleAnnotations, AnnotationGroup, annread
+    if entry == 'mem':
+        return ann.get_annotation_group(number=1)
+    if entry == 'sop_copy':
+        return MicroscopyBulkSimpleAnnotations.from_dataset(ann, copy=True).get_annotation_group(number=1)
+    b = io.BytesIO()
+    ann.save_as(b)
+    if entry == 'sop_nocopy':
+        ds = pydicom.dcmread(io.BytesIO(b.getvalue()))
+        return MicroscopyBulkSimpleAnnotations.from_dataset(ds, copy=False).get_annotation_group(number=1)
+    if entry in ('group_copy', 'group_nocopy'):
+        ds = pydicom.dcmread(io.BytesIO(b.getvalue()))
+        return AnnotationGroup.from_dataset(ds.AnnotationGroupSequence[0], copy=(entry == 'group_copy'))
+    obj = annread(io.BytesIO(b.getvalue()))
+    if entry == 'file_number':
+        return obj.get_annotation_group(number=1)
+    if entry == 'file_uid':
+        return obj.get_annotation_group(uid=UID_ROOT + '1')
+    if entry == 'file_filter':
+        (g,) = obj.get_annotation_groups(graphic_type=gt)
+        return g
+    raise ValueError(entry)
+
+
+def _run_access_order(c):
+    np = _np()
+    d, g = c['d'], c['group']
+
+    def build():
+        return _sop([_group(1, g['gt'], _arrays(g, d))], d, c.get('implicit', False))
+    ann = catch(build)
+    if isinstance(ann, Err):
+        return ann
+    grp = _enter(ann, c['entry'], g['gt'])
+    dbl = 'DoublePointCoordinatesData' in grp
+    # fresh object: the caller's own arrays come back; render them in the stored precision
+    conv = (lambda x: np.asarray(x).astype(np.float64 if dbl else np.float32)) if c['entry'] == 'mem' else (lambda x: x)
+    out = []
+    for op in c['ops']:
+        cd = 5 - d if op[-1] else d
+        ct = '2D' if cd == 2 else '3D'
+        if op[0] == 'all':
+            out.append(catch(lambda: [_words(conv(x)) for x in grp.get_graphic_data(ct)]))
+        else:
+            out.append(catch(lambda: _words(conv(grp.get_coordinates(op[1], ct)))))
     return out
 
 
@@ -701,10 +894,23 @@ def _run_decode_raw(c):
     return catch(lambda: [_words(x) for x in g.get_graphic_data('2D' if cd == 2 else '3D')])
 
 
-def _meas_arr(vs, dt):
+def _meas_arr(vs, dt, layout='c'):
     np = _np()
     x = np.array(vs, dtype=np.uint32).view(np.float32)
-    return x.astype(np.float64) if dt == 'f8' else x
+    x = x.astype(np.float64) if dt == 'f8' else x
+    if layout == 'strided':
+        big = np.full((2 * len(vs) + 1,), 99.0, x.dtype)
+        big[1::2] = x
+        x = big[1::2]
+    elif layout == 'neg':
+        x = np.ascontiguousarray(x[::-1])[::-1]
+    elif layout == 'be':
+        # astype would quieten signalling NaNs on some platforms; swap the bytes instead
+        x = x.byteswap().view(x.dtype.newbyteorder('>'))
+    elif layout == 'readonly':
+        x = x.copy()
+        x.setflags(write=False)
+    return x
 
 
 def _menc(m):
@@ -720,7 +926,7 @@ def _menc(m):
 def _run_meas(c):
     from highdicom.ann import Measurements
     cc = _codes()
-    m = Measurements(cc['name'][0], _meas_arr(c['vs'], c['dt']), cc['unit'])
+    m = Measurements(cc['name'][0], _meas_arr(c['vs'], c['dt'], c.get('layout', 'c')), cc['unit'])
     out = []
     for obj in (m, Measurements.from_dataset(m, copy=True)):
         out.append([_menc(obj), [catch(lambda n=n: _words(obj.get_values(n))) for n in c['ns']]])
@@ -750,7 +956,8 @@ def _run_group_meas(c):
     n = c['n']
 
     def build():
-        ms = [Measurements(cc['name'][m['name']], _meas_arr(m['vs'], m['dt']), cc['unit']) for m in c['ms']]
+        ms = [Measurements(cc['name'][m['name']], _meas_arr(m['vs'], m['dt'], m.get('layout', 'c')), cc['unit'])
+              for m in c['ms']]
         gd = [np.array([[float(i), 1.0]], np.float32) for i in range(n)]
         g = _group(1, 'POINT', gd, measurements=(ms or None) if c['none_if_empty'] else ms)
         return _sop([g], 2, c.get('implicit', False))
@@ -832,8 +1039,10 @@ def run_impl(c):
     warnings.filterwarnings('ignore')
     logging.disable(logging.CRITICAL)
     k = c['kind']
-    if k in ('graphic', 'graphic_bigint', 'graphic_err', 'zero_mixed'):
+    if k in ('graphic', 'graphic_bigint', 'graphic_err', 'zero_mixed', 'graphic_layout'):
         return _run_graphic(c)
+    if k == 'access_order':
+        return _run_access_order(c)
     if k == 'decode_raw':
         return _run_decode_raw(c)
     if k == 'meas':
@@ -851,7 +1060,7 @@ def run_impl(c):
 def _model_words(g, d):
     """(dbl, gd as words in the dtype numpy concatenates to)"""
     np = _np()
-    arrs = _arrays(g, d)
+    arrs = _arrays(g, d, layout=False)
     if not arrs:
         return False, []
     rt = np.result_type(*[a.dtype for a in arrs])
@@ -898,6 +1107,23 @@ def _graphic_term(g, d, mem=False):
     return t
 
 
+def _history_term(c):
+    g, d = c['group'], c['d']
+    dbl, gd = _model_words(g, d)
+    dbl_term = _b(dbl)
+    ints = [v for a in g['gd'] for r in a for v in r]
+    if _all_int(g):
+        dbl_term = '(ints_double ' + zl(ints) + ')'
+    ops = []
+    for op in c['ops']:
+        cd = 5 - d if op[-1] else d
+        ops.append(f'HAll {cd}' if op[0] == 'all' else f'HOne {zlit(op[1])} {cd}')
+    t = f"(run_history {dbl_term} {g['gt']} {zlll(gd)} {_b(c['entry'] == 'mem')} [{'; '.join(ops)}])"
+    if _all_int(g):
+        t = f'(guard_ints {zl(ints)} {t})'
+    return t
+
+
 def _query_term(q):
     def o(k):
         return optz(q.get(k))
@@ -907,14 +1133,16 @@ def _query_term(q):
 
 def coq_term(c):
     k = c['kind']
-    if k in ('graphic', 'graphic_bigint'):
+    if k == 'access_order':
+        return _history_term(c)
+    if k in ('graphic', 'graphic_bigint', 'graphic_layout'):
         n = len(c['groups'])
         lets = ' '.join(f"let g{i} := {_graphic_term(g, c['d'])} in let m{i} := {_graphic_term(g, c['d'], mem=True)} in"
                         for i, g in enumerate(c['groups']))
 
         def path(fmt):
             return 'VL [' + '; '.join(fmt.format(i=i) for i in range(n)) + ']'
-        return f"({lets} VL [{path('m{i}')}; {path('sel [1]%nat g{i}')}; {path('g{i}')}; VB true])"
+        return f"({lets} VL [{path('m{i}')}; {path('sel [1; 2]%nat g{i}')}; {path('g{i}')}; VB true])"
     if k == 'graphic_err':
         if any(len(set(len(r) for r in a)) > 1 for g in c['groups'] for a in g['gd']):
             return None
@@ -962,7 +1190,7 @@ def _expected_arrays(g, d):
     value, in float64 if any input was float64 (or mixed int/float32 widths
     force it), else float32"""
     np = _np()
-    arrs = _arrays(g, d)
+    arrs = _arrays(g, d, layout=False)
     kinds = {a.dtype for a in arrs}
     if all(k.kind in 'iu' for k in kinds):
         tgt = np.float32 if all(fits32(v) for a in g['gd'] for r in a for v in r) else np.float64
@@ -984,12 +1212,12 @@ def _oracle_graphic(c, out, bitwise=True):
         return 'fresh object does not return the dtypes it was given'
     for (pname, per_group) in zip(('mem', 'copy', 'file'), out):
         for gi, (g, o) in enumerate(zip(c['groups'], per_group)):
-            enc, gd, coords, cis = {'mem': lambda: [None, o[0], o[1], None], 'copy': lambda: [None, o[0], None, None],
+            enc, gd, coords, cis = {'mem': lambda: [None, o[0], o[1], None], 'copy': lambda: [None, o[0], o[1], None],
                                     'file': lambda: o}[pname]()
             dbl = per_group is not None and out[2][gi][0][0]
             arrs, tgt = _expected_arrays(g, d)
             n = len(arrs)
-            where = f'{pname} path, group {gi + 1} ({g["gt"]}, {g["dt"]}, d={d})'
+            where = f'{pname} path, group {gi + 1} ({g["gt"]}, {g["dt"]}, d={d}, layout={g.get("layout", "c")})'
             if isinstance(gd, Err):
                 return f'{where}: get_graphic_data raised {gd}'
             if len(gd) != n:
@@ -1020,7 +1248,8 @@ def _oracle_graphic(c, out, bitwise=True):
                     if r != Err('IndexError'):
                         return f'{where}: get_coordinates({k}) gave {r} with {n} annotations'
                 elif r != gd[k - 1]:
-                    return f'{where}: get_coordinates({k}) differs from get_graphic_data()[{k - 1}]'
+                    return (f'{where}: get_coordinates({k}){" on a cold object" if pname == "copy" else ""} = {r} '
+                            f'differs from get_graphic_data()[{k - 1}] = {gd[k - 1]}')
             if enc is None:
                 continue
             # coordinate index into the stored flat data
@@ -1043,14 +1272,46 @@ def _oracle_graphic(c, out, bitwise=True):
     return None
 
 
+def _oracle_access_order(c, out):
+    np = _np()
+    if isinstance(out, Err):
+        return f'valid graphic data refused: {out}'
+    if any(op[-1] for op in c['ops']):
+        # a call under the coordinate type the object does not have: no property clause
+        # says what happens then; those histories are compared with the model only
+        return None
+    g, d = c['group'], c['d']
+    arrs, tgt = _expected_arrays(g, d)
+    want = [_words(a.astype(tgt)) for a in arrs]
+    n = len(want)
+    where = f'{g["gt"]} group ({g["dt"]}, d={d}, {n} annotations) reached by {c["entry"]}'
+    for i, (op, r) in enumerate(zip(c['ops'], out)):
+        call = 'get_graphic_data()' if op[0] == 'all' else f'get_coordinates({op[1]})'
+        hist = 'as first call' if i == 0 else 'after ' + ', '.join(
+            'get_graphic_data()' if o[0] == 'all' else f'get_coordinates({o[1]})' for o in c['ops'][:i])
+        if op[0] == 'all':
+            exp = want
+        elif op[1] < 1:
+            exp = Err('ValueError')
+        elif op[1] > n:
+            exp = Err('IndexError')
+        else:
+            exp = want[op[1] - 1]
+        if r != exp:
+            return f'{where}: {call} {hist} returned {r}, stored {exp}'
+    return None
+
+
 def _canon_meas(vs):
     return [0x7fc00000 if (v & 0x7f800000) == 0x7f800000 and (v & 0x7fffff) else v for v in vs]
 
 
 def oracle(c, out):
     k = c['kind']
-    if k in ('graphic', 'graphic_bigint'):
+    if k in ('graphic', 'graphic_bigint', 'graphic_layout'):
         return _oracle_graphic(c, out)
+    if k == 'access_order':
+        return _oracle_access_order(c, out)
     if k == 'zero_mixed':
         return _oracle_graphic(c, out, bitwise=False)
     if k == 'graphic_err':
@@ -1122,8 +1383,10 @@ def oracle(c, out):
 
 def nontrivial(c, out):
     k = c['kind']
-    if k in ('graphic', 'graphic_bigint', 'zero_mixed'):
+    if k in ('graphic', 'graphic_bigint', 'zero_mixed', 'graphic_layout'):
         return sum(len(g['gd']) for g in c['groups']) > 1
+    if k == 'access_order':
+        return len(c['group']['gd']) > 1 and len(c['ops']) > 1
     if k == 'meas':
         return len(c['vs']) > 1
     if k == 'group_meas':
@@ -1137,11 +1400,31 @@ def nontrivial(c, out):
 
 def shrink(c):
     k = c['kind']
-    if k in ('graphic', 'graphic_bigint', 'graphic_err', 'zero_mixed'):
+    if k == 'access_order':
+        ops = c['ops']
+        for i in reversed(range(len(ops))):
+            if len(ops) > 1:
+                yield dict(c, ops=ops[:i] + ops[i + 1:])
+        g = c['group']
+        if g.get('layout'):
+            yield dict(c, group={kk: v for kk, v in g.items() if kk != 'layout'})
+        n = len(g['gd'])
+        for i in range(n - 1):
+            # drop an annotation that no call asks for by number >= its own
+            if n > 1 and all(o[0] == 'all' or o[1] > i + 1 or o[1] < 1 for o in ops):
+                ops2 = [o if o[0] == 'all' or o[1] < 1 else ['one', o[1] - 1, o[2]] for o in ops]
+                yield dict(c, group=dict(g, gd=g['gd'][:i] + g['gd'][i + 1:]), ops=ops2)
+        for i, a in enumerate(g['gd']):
+            if g['gt'] in ('POLYLINE', 'POLYGON') and len(a) > 3:
+                yield dict(c, group=dict(g, gd=g['gd'][:i] + [a[:1] + a[2:]] + g['gd'][i + 1:]))
+    if k in ('graphic', 'graphic_bigint', 'graphic_err', 'zero_mixed', 'graphic_layout'):
         gs = c['groups']
         if len(gs) > 1:
             for i in range(len(gs)):
                 yield dict(c, groups=gs[:i] + gs[i + 1:])
+        for gi, g in enumerate(gs):
+            if g.get('layout'):
+                yield dict(c, groups=gs[:gi] + [{kk: v for kk, v in g.items() if kk != 'layout'}] + gs[gi + 1:])
         for gi, g in enumerate(gs):
             if 'dts' in g:
                 continue
